@@ -1,5 +1,7 @@
 (** C11 - Update data describes exactly what the block changed. *)
 From Utreexo Require Import Spec.Forest Proofs.SpecBasics.
+From Utreexo Require Import Spec.Forest Spec.Term Model.Verify Proofs.StumpAddData.
+From Coq Require Import List.
 Open Scope N_scope.
 
 Theorem C11_prev_num_leaves : forall (H : Type) (HO : ops H) s dels adds,
@@ -12,3 +14,114 @@ Theorem C11_lists_sorted : forall (H : Type) (HO : ops H) s dels adds,
   ascK (ud_new_add (spec_update_data HO s dels adds)).
 Proof. intros; split; apply sortK_asc. Qed.
 Print Assumptions C11_lists_sorted.
+
+(** ** merged from C11b.v: the update data computed by the mirror of Stump.add equals the specification *)
+
+(** "the positions, in post-block coordinates and in order of destruction, of exactly those empty
+    roots that the additions overwrote": [rootsToDestory] of stump.go computes [to_destroy]. *)
+Theorem C11b_rootsToDestroy_spec :
+  forall (H : Type) (HO : ops H), ops_ok HO ->
+    (forall a b, op_eqb HO (op_hash2 HO a b) (op_empty HO) = false) ->
+    forall (filler : H) (s : slots H) (adds : list H),
+      op_eqb HO filler (op_empty HO) = false ->
+      (forall h, In (Some h) s -> op_eqb HO h (op_empty HO) = false) ->
+      N.of_nat (length s + length adds) <= 2 ^ 63 ->
+      rootsToDestroy HO filler (length adds) (num_leaves s) (roots HO s)
+      = to_destroy HO (rows_of (num_leaves (s ++ map Some adds))) s adds.
+Proof. exact rootsToDestroy_spec. Qed.
+Print Assumptions C11b_rootsToDestroy_spec.
+
+(** the third component of [Stump.add] (before and after the repair of D8) *)
+Theorem C11b_stump_add_destroyed :
+  forall (H : Type) (HO : ops H), ops_ok HO ->
+    (forall a b, op_eqb HO (op_hash2 HO a b) (op_empty HO) = false) ->
+    forall strict (filler : H) (s : slots H) (adds : list H),
+      op_eqb HO filler (op_empty HO) = false ->
+      (forall h, In (Some h) s -> op_eqb HO h (op_empty HO) = false) ->
+      N.of_nat (length s + length adds) <= 2 ^ 63 ->
+      snd (stump_add HO strict filler (mkStump (roots HO s) (num_leaves s)) adds)
+      = to_destroy HO (rows_of (num_leaves (s ++ map Some adds))) s adds.
+Proof. exact stump_add_destroyed. Qed.
+Print Assumptions C11b_stump_add_destroyed.
+
+(** "For the additions it lists, sorted by position and without duplicates, every added leaf and
+    every node that became a child of a parent created by the additions, each with its true final
+    position and hash": the second component of [Stump.add] (the code as it is now) is [new_add].
+    [Stump.add] keys its map by hash, hence the two distinctness hypotheses: no added hash is a
+    live leaf, and the hashes that the specification lists are pairwise distinct. *)
+Theorem C11b_stump_add_collects :
+  forall (H : Type) (HO : ops H), ops_ok HO ->
+    (forall a b, op_eqb HO (op_hash2 HO a b) (op_empty HO) = false) ->
+    forall (filler : H) (s : slots H) (adds : list H),
+      op_eqb HO filler (op_empty HO) = false ->
+      (forall h, In (Some h) s -> op_eqb HO h (op_empty HO) = false) ->
+      (forall h, In h adds -> op_eqb HO h (op_empty HO) = false) ->
+      N.of_nat (length s + length adds) <= 2 ^ 63 ->
+      (forall a, In a adds -> ~ In (Some a) s) ->
+      NoDup (map snd (new_add HO (s ++ map Some adds) adds)) ->
+      snd (fst (stump_add HO true filler (mkStump (roots HO s) (num_leaves s)) adds))
+      = new_add HO (s ++ map Some adds) adds.
+Proof. exact stump_add_collects. Qed.
+Print Assumptions C11b_stump_add_collects.
+
+(** the same from one primitive hypothesis: no two nodes of the post-block forest carry the same
+    non-empty hash (no collision, no repeated leaf) *)
+Theorem C11b_stump_add_collects_layout :
+  forall (H : Type) (HO : ops H), ops_ok HO ->
+    (forall a b, op_eqb HO (op_hash2 HO a b) (op_empty HO) = false) ->
+    forall (filler : H) (s : slots H) (adds : list H),
+      op_eqb HO filler (op_empty HO) = false ->
+      (forall h, In (Some h) s -> op_eqb HO h (op_empty HO) = false) ->
+      (forall h, In h adds -> op_eqb HO h (op_empty HO) = false) ->
+      N.of_nat (length s + length adds) <= 2 ^ 63 ->
+      (forall x y, In x (layout HO (s ++ map Some adds)) -> In y (layout HO (s ++ map Some adds)) ->
+                   op_eqb HO (nhash x) (op_empty HO) = false -> nhash x = nhash y -> x = y) ->
+      snd (fst (stump_add HO true filler (mkStump (roots HO s) (num_leaves s)) adds))
+      = new_add HO (s ++ map Some adds) adds.
+Proof. exact stump_add_collects_layout. Qed.
+Print Assumptions C11b_stump_add_collects_layout.
+
+(** all three results of [Stump.add] at once, against [spec_update_data] *)
+Theorem C11b_stump_add_update_data :
+  forall (H : Type) (HO : ops H), ops_ok HO ->
+    (forall a b, op_eqb HO (op_hash2 HO a b) (op_empty HO) = false) ->
+    forall (filler : H) (s : slots H) (dels adds : list H),
+      let s1 := kill HO dels s in
+      let s2 := apply_block HO s dels adds in
+      op_eqb HO filler (op_empty HO) = false ->
+      (forall h, In (Some h) s1 -> op_eqb HO h (op_empty HO) = false) ->
+      (forall h, In h adds -> op_eqb HO h (op_empty HO) = false) ->
+      N.of_nat (length s + length adds) <= 2 ^ 63 ->
+      (forall a, In a adds -> ~ In (Some a) s1) ->
+      NoDup (map snd (ud_new_add (spec_update_data HO s dels adds))) ->
+      stump_add HO true filler (mkStump (roots HO s1) (num_leaves s1)) adds
+      = (mkStump (roots HO s2) (num_leaves s2),
+         ud_new_add (spec_update_data HO s dels adds),
+         ud_to_destroy (spec_update_data HO s dels adds)).
+Proof. exact stump_add_update_data. Qed.
+Print Assumptions C11b_stump_add_update_data.
+
+(** "without duplicates": no two listed additions share a position (no hypothesis) *)
+Theorem C11b_new_add_pos_nodup :
+  forall (H : Type) (HO : ops H) (s : slots H) (adds : list H),
+    NoDup (map fst (new_add HO s adds)).
+Proof. exact new_add_pos_nodup. Qed.
+Print Assumptions C11b_new_add_pos_nodup.
+
+(** in the free hash algebra the idealisation on [hash2] is a theorem *)
+Theorem C11b_stump_add_update_data_term :
+  forall (filler : term) (s : slots term) (dels adds : list term),
+    let s1 := kill term_ops dels s in
+    let s2 := apply_block term_ops s dels adds in
+    filler <> Zero ->
+    (forall h, In (Some h) s1 -> h <> Zero) ->
+    (forall h, In h adds -> h <> Zero) ->
+    N.of_nat (length s + length adds) <= 2 ^ 63 ->
+    (forall a, In a adds -> ~ In (Some a) s1) ->
+    NoDup (map snd (ud_new_add (spec_update_data term_ops s dels adds))) ->
+    stump_add term_ops true filler (mkStump (roots term_ops s1) (num_leaves s1)) adds
+    = (mkStump (roots term_ops s2) (num_leaves s2),
+       ud_new_add (spec_update_data term_ops s dels adds),
+       ud_to_destroy (spec_update_data term_ops s dels adds)).
+Proof. exact stump_add_update_data_term. Qed.
+Print Assumptions C11b_stump_add_update_data_term.
